@@ -101,7 +101,7 @@ def run(ctx, name):
         __name__="method",
     )
     dispatch, table = Record(kind="entry point"), Record(kind="table")
-    ov = Record(id=7, argument_analysis=Record(kind="analysis"), dispatch=dispatch, map=table, name="f")
+    ov = Record(id=7, argument_analysis=Record(kind="analysis"), dispatch=dispatch, map=table, name="mod.f", shortname="f", __name__="f", __qualname__="f", __module__="mod")
     genv = {
         "inspect": Record(getsource=HostFn(lambda f: sc["source"])),
         "OSError": Record(kind="OSError"),
